@@ -79,8 +79,8 @@ CHECKS = {
    note="buffer = disk in this check (C12 covers the difference); idle = all spawned tasks ended + barrier request",
    technique="stateful property-based testing against a from-scratch oracle"),
  "C12": dict(cat="exploration", design="§5 C12",
-   text="Exhaustive enumeration of all sessions of up to 4 (thorough 5) open/change events over a root and an included document whose disk and buffer texts differ observably, compared after every step with a reference session model (disk overlaid by open buffers, root = last touched).",
-   note="didClose is not part of the modelled sessions",
+   text="Exhaustive enumeration of all sessions of up to 4 (thorough 5) open/change/close events, each with the included document on disk and never saved, over a root and an included document whose disk and buffer texts differ observably, compared after every step with a reference session model (disk overlaid by open buffers, root = last touched).",
+   note="a close triggers no analysis; its effect (disk text is the truth again) is checked at the next analysed step",
    technique="exhaustive small-scope enumeration of sessions against a reference model"),
  "C04": dict(cat="exploration", design="§5 C04",
    text="Positive: 10000 grammar-generated sentences per quick run (three trivia policies) must parse with zero errors and mirror their derivation tree, including what each of the 103 typed accessors of ast.rs returns; the 39 vendored LLVM files and the seed files must parse cleanly. Negative: 15000 one/two-token edits classified by an independent Earley recogniser over token classes against two grammars (G_min: documented grammar; G_max: plus everything plausibly legal): derivable => zero errors, not derivable even from G_max => at least one error.",
